@@ -10,8 +10,13 @@
 (*                     when it is complete)                                *)
 (*   inv   {t}         thread t is about to call (logged before the call)  *)
 (*   res   {t, id}     thread t's call returned id (logged after return)   *)
+(*   new   {err}       the constructor was called with the node number of  *)
+(*                     the reset event and refused it (err) or not; logged *)
+(*                     when it refused, and for node numbers chosen at and *)
+(*                     beyond the node width                               *)
 (* All 64-bit values are 4 limbs of 16 bits, most significant first.       *)
-(* Anything else (hang, panic, crash) is inexplicable.                     *)
+(* Anything else (hang, panic, crash) is inexplicable: a call that never    *)
+(* returns, a panic, a dead process are observations the contract rejects. *)
 EXTENDS IdGen, Json, IOUtils
 
 TraceLog == ndJsonDeserialize(IOEnv.VERIF_TRACE)
@@ -40,6 +45,12 @@ TGen(e) ==
   /\ GenOK(e.now, e.id)
   /\ CGen(e.now, e.id)
 
+(* a node number is accepted exactly when it fits the node width *)
+TNew(e) ==
+  /\ cfg.kind \in {"hard", "mono"}
+  /\ e.err = (cfg.node \notin 0..(2^(cfg.nb) - 1))
+  /\ UNCHANGED cvars
+
 TClk(e) == IsNum(e.now) /\ CTick(e.now)
 
 TInv(e) == e.t \in DOMAIN pend /\ CInv(e.t)
@@ -56,6 +67,7 @@ TraceNext ==
        CASE e.ev = "reset" -> TReset(e)
          [] e.ev = "gen"   -> TGen(e)
          [] e.ev = "clk"   -> TClk(e)
+         [] e.ev = "new"   -> TNew(e)
          [] e.ev = "inv"   -> TInv(e)
          [] e.ev = "res"   -> TRes(e)
          [] OTHER -> FALSE
